@@ -102,7 +102,11 @@ def plan(prop, tier):
         gens += [sc([G, G, G, "submit", "submit"], D=0, P=2, flags=["-twin"], lean=False), sc([G, G, G, "submit", "submit"], D=1, P=2, flags=["-twin"], lean=False), sc([G, G, "clean", "submit", "submit"], D=1, P=1, flags=["-twin"], lean=False),
                  sc([G, G, G, "submit", "submit"], D=1, P=2, flags=["-twin"], lean=False, works=(1,), ties=True),
                  # a mark trims a branch back to a fork point; headers that are already accepted are submitted again
-                 sc([G, G, G, "mark", "subscribe", "submit", "submit"], N=3, subs=1, lean=False)]
+                 sc([G, G, G, "mark", "subscribe", "submit", "submit"], N=3, subs=1, lean=False),
+                 # a store that holds a list of invalid-marked hashes and little else (a mark persists at once, a Save
+                 # may never have happened): the marked header is still answered "marked invalid" after the restart
+                 sc(["legacy", "submit", "submit", "submit"], N=3, D=1, P=2, lean=False),
+                 sc(["legacy", G, "save", "load", "submit"], N=3, D=2, P=2, lean=False)]
     elif prop == "C09":
         exh = [("maint", 4, 1, 2, 1)]
         gens = [g(D=1, P=1, ops=maint_ops, big=400), g(D=1, P=2, ops=maint_ops, S=(1, 3, 7)),
